@@ -12,6 +12,7 @@ Family ==
     [] Fam = "uris" -> UrisFamily
     [] Fam = "xfers" -> XfersFamily
     [] Fam = "schemas" -> SchemasFamily
+    [] Fam = "annots" -> AnnotsFamily
     [] Fam = "recinst" -> {RecInst(nm) : nm \in RecInstNames}
     [] Fam = "recgraphs2" -> RecGraphs(2)
     [] Fam = "posshape" -> {ProgOf(pn, sn, ind) : pn \in AllPositions, sn \in AllShapes, ind \in {"direct", "let", "reflet", "idfn", "implet", "impfn"}}
@@ -26,8 +27,10 @@ SetSeq(S) == IF S = {} THEN <<>> ELSE CHOOSE f \in [1..Cardinality(S) -> S] : \A
 \* resolution must succeed for the denotation to be defined
 Resolves == Accepted(prog)       \* the denotation is defined for accepted programs
 
+Label == IF Fam = "annots" THEN (CHOOSE x \in AnnotsLabelled : x.p = prog).l ELSE <<>>
+
 PrintCase ==
-  IF ~Resolves THEN PrintT(<<"CASE", ToJson([prog |-> prog, defined |-> FALSE, paths |-> <<>>, comps |-> <<>>])>>)
-  ELSE PrintT(<<"CASE", ToJson([prog |-> prog, defined |-> TRUE, paths |-> Paths(prog),
+  IF ~Resolves THEN PrintT(<<"CASE", ToJson([prog |-> prog, label |-> Label, defined |-> FALSE, paths |-> <<>>, comps |-> <<>>])>>)
+  ELSE PrintT(<<"CASE", ToJson([prog |-> prog, label |-> Label, defined |-> TRUE, paths |-> Paths(prog),
                                 comps |-> LET S == {Component(prog, x) : x \in RefDecls(prog)} IN SetSeq(S)])>>)
 =============================================================================
